@@ -3,6 +3,7 @@ import UberjobModel.Lemmas.EngineMeasure
 import UberjobModel.Lemmas.KahnSound
 import UberjobModel.Lemmas.GraphWF
 import UberjobModel.Lemmas.EngineExamples
+import UberjobModel.Lemmas.EngineQ
 /-!
 # C07 — run always terminates and leaves nothing running; cycles are rejected up front
 
@@ -116,5 +117,83 @@ theorem C07_fine_no_deadlock {g : Graph} (hg : g.WF) {cfg : Cfg} (hw : 1 ≤ cfg
     (hr : Reach2 g cfg s) (hnf : ∀ i, s.c.coord ≠ .returned i) :
     ∃ l, l ≠ Label2.base .interrupt ∧ (step2? g cfg s l).isSome :=
   fine_progress hg hw hr hnf
+
+/-! ### The wake-up model: sleeping in `queue.get()` / `queue.join()` (`Model/EngineQ.lean`) -/
+
+open Uberjob.EngineQ in
+/-- The wake-up model adds only WHO MAY MOVE: its reachable states project to reachable states of the coarse model, so every
+    safety theorem (C04, C06, C10 bounds, quiescence) holds of it unchanged. -/
+theorem C07_q_refines {g : Graph} {cfg : Cfg} {s : StQ} (h : ReachQ g cfg s) : Reach g cfg s.c :=
+  reachQ_reach h
+
+open Uberjob.EngineQ in
+/-- Sleepers do not poll: whatever step is taken, the worker that takes it is not asleep in `not_empty.wait()`, and if the
+    calling thread takes it, it is not asleep in `all_tasks_done.wait()`. -/
+theorem C07_sleepers_do_not_act {g : Graph} {cfg : Cfg} {s s' : StQ} {l : LabelQ} (hr : ReachQ g cfg s)
+    (h : stepQ? g cfg s l = some s') :
+    (∀ w, workerOf l = some w → w ∉ s.sleep) ∧ (byCaller l = true → s.cs ≠ .asleep) :=
+  stepQ_awake (qinv_reach hr) h
+
+open Uberjob.EngineQ in
+/-- **No lost wake-up**: threads that find nothing to do go to sleep and are woken only by the single `notify()` of a `put`
+    or the `notify_all()` of the `task_done` that brings the count to 0 — and still, in every reachable state in which the
+    run has not returned, some thread that is awake can take a step. -/
+theorem C07_no_lost_wakeup {g : Graph} {cfg : Cfg} (hw : 1 ≤ cfg.workers) {s : StQ} (hr : ReachQ g cfg s)
+    (hnf : ∀ i, s.c.coord ≠ .returned i) : ∃ l, l ≠ LabelQ.interrupt ∧ (stepQ? g cfg s l).isSome :=
+  q_progress hw hr hnf
+
+open Uberjob.EngineQ in
+/-- Every step of the wake-up model (going to sleep included) strictly decreases `muQ`: no schedule sleeps and wakes for ever. -/
+theorem C07_q_terminates {g : Graph} (hg : g.WF) {cfg : Cfg} (hw : 1 ≤ cfg.workers) {s s' : StQ} {l : LabelQ}
+    (hr : ReachQ g cfg s) (h : stepQ? g cfg s l = some s') : muQ g cfg s' < muQ g cfg s :=
+  muQ_decreases hg hw hr h
+
+open Uberjob.EngineQ in
+/-- Hence every reachable state of the wake-up model can be driven to `returned` by steps of threads that are awake. -/
+theorem C07_q_can_finish {g : Graph} (hg : g.WF) {cfg : Cfg} (hw : 1 ≤ cfg.workers) :
+    ∀ (n : Nat) (s : StQ), muQ g cfg s ≤ n → ReachQ g cfg s →
+      ∃ ls s', runQ? g cfg s ls = some s' ∧ ∃ i, s'.c.coord = .returned i := by
+  intro n
+  induction n with
+  | zero =>
+    intro s hm hr
+    by_cases hf : ∃ i, s.c.coord = .returned i
+    · exact ⟨[], s, rfl, hf⟩
+    · obtain ⟨l, _, hl⟩ := C07_no_lost_wakeup hw hr (fun i hi => hf ⟨i, hi⟩)
+      obtain ⟨s1, h1⟩ := Option.isSome_iff_exists.mp hl
+      have := muQ_decreases hg hw hr h1
+      omega
+  | succ n ih =>
+    intro s hm hr
+    by_cases hf : ∃ i, s.c.coord = .returned i
+    · exact ⟨[], s, rfl, hf⟩
+    · obtain ⟨l, _, hl⟩ := C07_no_lost_wakeup hw hr (fun i hi => hf ⟨i, hi⟩)
+      obtain ⟨s1, h1⟩ := Option.isSome_iff_exists.mp hl
+      have hlt := muQ_decreases hg hw hr h1
+      obtain ⟨ls, s', hrun, hfin⟩ := ih s1 (by omega) (ReachQ.step l hr h1)
+      exact ⟨l :: ls, s', by simp [runQ?, h1, hrun], hfin⟩
+
+/-- Non-vacuity: a run of a two-node chain on two workers in which worker 1 and the calling thread go to sleep, the `put` of
+    node 1 wakes worker 1, worker 0 goes to sleep, the last `task_done` wakes the calling thread, and the first sentinel
+    wakes worker 0. -/
+def chainQ : Graph := Graph.ofEdges [0, 1] [(0, 1)]
+
+open Uberjob.EngineQ in
+def chainQRun : List LabelQ :=
+  [.base .spawn, .base .spawn, .getTake 0 (.node 0), .getSleep 1, .joinSleep, .base (.check 0), .base (.finOk 0),
+   .put (.release 0 1) (some 1), .taskDone 0, .getTake 1 (.node 1), .getSleep 0, .base (.check 1), .base (.finOk 1),
+   .taskDone 1, .joinTake, .base .setStop, .put .putDone (some 0), .put .putDone none, .getTake 0 .done, .getTake 1 .done,
+   .base (.check 0), .base (.check 1), .taskDone 0, .taskDone 1, .base .joined]
+
+open Uberjob.EngineQ in
+example : (runQ? chainQ ⟨2, some 0⟩ (initQ chainQ) chainQRun).map (fun s => (s.c.coord, s.sleep, s.woken)) =
+    some (.returned false, [], []) := by decide
+
+open Uberjob.EngineQ in
+/-- ... and a sleeper really cannot act: with worker 1 asleep and nothing queued, `getTake 1` is refused; a `put` that names
+    no sleeper to wake while one sleeps is refused too (`notify()` does wake one). -/
+example : (runQ? chainQ ⟨2, some 0⟩ (initQ chainQ)
+    [.base .spawn, .base .spawn, .getTake 0 (.node 0), .getSleep 1, .base (.check 0), .base (.finOk 0),
+     .put (.release 0 1) none]).isNone = true := by decide
 
 end Uberjob.Engine
